@@ -37,6 +37,13 @@ def scenario_from(bad):
           'mirsym': {k: v for k, v in bad.items() if k in ('problems', 'msg', 'where', 'result')}}
     if case.get('validate_after'):
         sc['validate_after'] = True
+    if case.get('shrink') or case.get('read_errors'):
+        fidx = [j for j, kk in enumerate(case['kinds']) if kk == 'F']
+        if len(fidx) >= 2:
+            pths = case.get('paths') or B.PATHS
+            last, prev = fidx[-1], fidx[-2]
+            sc['source_event'] = {'when_reported': pths[prev], 'path': pths[last],
+                                  'what': 'truncate' if case.get('shrink') else 'make_dir', 'to': max(0, model.get('tactual%d' % last, 0))}
     if case.get('prior') == 'same':
         sc['prior'] = True
     elif case.get('prior') in ('built', 'changed'):
@@ -269,6 +276,7 @@ def path_role(p):
 def case_name(c):
     return '%s/%s/%s%s%s%s' % (c['kinds'], ''.join(map(str, c['classes'])), c['mode'], '/prior=' + c['prior'] if c.get('prior') else '',
                                '/nested-paths' if c.get('paths') else '', '/headless-band-above' if c.get('headless_above') else '') + \
+        ('/last-file-shrinks' if c.get('shrink') else '') + ('/last-file-read-fails' if c.get('read_errors') else '') + \
         ('/sizes=%s/opts=%s' % (c['sizes'], list(c['fixed_opts'])) if c.get('sizes') and c.get('fixed_opts') and not c.get('paths') else '')
 
 
